@@ -9,6 +9,7 @@ import (
 	"net"
 	"strings"
 	"sync"
+	"sync/atomic"
 	"syscall"
 	"time"
 
@@ -103,14 +104,67 @@ type tcpObs struct {
 	RawRecv     int                  `json:"raw_recv"`
 	Close       int                  `json:"close"`
 	CloseMs     int64                `json:"close_ms"`
+	FirstDownMs int64                `json:"first_downstream_byte_ms"`
+	SinkHit     string               `json:"sink_hit,omitempty"` // a non-public address the name resolves to received a connection
 	Reset       bool                 `json:"reset"`
 	Panic       string               `json:"panic,omitempty"`
 	HandlerDone bool                 `json:"handler_done"`
 	Port        int                  `json:"port"`
 }
 
+// DNS kinds (fake resolver, fakedns.go): 30 a name with a public A and the loopback AAAA,
+// 31 a name with a private and a public A, 32 a name that is public on the first look-up and
+// loopback afterwards. The name carries the connection's seed so that counters are per connection.
+var dnsKindBase = map[int]string{30: "mixed", 31: "two", 32: "flip"}
+
+var dnsNameNonce uint32
+
+// dnsName: the 7 letters are unique per call (a connection re-using an earlier seed must still get
+// a name of its own: the "flip" answers are counted per name); the model only needs the length.
+func dnsName(akind int, seed uint32) string {
+	s := dnsKindBase[akind] + "-"
+	x := atomic.AddUint32(&dnsNameNonce, 1)*7919 + seed%7919
+	for i := 0; i < 7; i++ {
+		s += string(rune('a' + x%26))
+		x /= 26
+	}
+	return s + ".verif.test"
+}
+
+// tcpTargetIP: where the scripted target of this kind listens
+func tcpTargetIP(akind int) string {
+	switch {
+	case akind == 1:
+		return "::1"
+	case akind >= 4 && akind <= 15:
+		return targetKinds[akind].ip
+	case akind >= 30 && akind <= 32:
+		return "203.0.113.77"
+	}
+	return "127.0.0.1"
+}
+
+// tcpKindPublic: the default policy allows the destination (for DNS kinds: one of the answers is allowed)
+func tcpKindPublic(akind int) bool {
+	if akind >= 4 && akind <= 15 {
+		return targetKinds[akind].public
+	}
+	return akind >= 30 && akind <= 32
+}
+
+func addrBytesSeed(akind, port int, seed uint32) []byte {
+	if akind >= 30 && akind <= 32 {
+		n := dnsName(akind, seed)
+		return append(append([]byte{3, byte(len(n))}, []byte(n)...), byte(port>>8), byte(port))
+	}
+	return addrBytes(akind, port)
+}
+
 func addrBytes(akind, port int) []byte {
 	p := []byte{byte(port >> 8), byte(port)}
+	if akind >= 4 && akind <= 15 {
+		return socksAddrBytes(akind, port)
+	}
 	switch akind {
 	case 0:
 		return append([]byte{1, 127, 0, 0, 1}, p...)
@@ -155,7 +209,7 @@ func clientWire(sp *tcpConnSpec, port int) (wire []byte, payload []byte, key *sh
 		return ssStream(key, genBytes(saltSizes[sp.C], sp.Seed), genBytes(20, 3))[:sp.N], nil, key
 	}
 	key = mkKey(sp.C, sp.S)
-	ab := addrBytes(sp.AKind, port)
+	ab := addrBytesSeed(sp.AKind, port, sp.Seed)
 	var ps [][]byte
 	for _, c := range sp.Chunks {
 		p := genBytes(c[0], uint32(c[1]))
@@ -208,18 +262,63 @@ func runTCPCase(cs *tcpCaseSpec) []tcpObs {
 	return out
 }
 
+var tmuSink sync.Mutex
+
 func runTCPConn(auth service.StreamAuthenticateFunc, sp *tcpConnSpec) (ob tcpObs) {
 	// scripted target
-	taddr := "127.0.0.1:0"
-	if sp.AKind == 1 {
-		taddr = "[::1]:0"
-	}
+	ensureFakeDNS()
+	taddr := net.JoinHostPort(tcpTargetIP(sp.AKind), "0")
 	tl, err := net.Listen("tcp", taddr)
 	if err != nil {
 		ob.Panic = "harness: target listen: " + err.Error()
 		return
 	}
 	port := tl.Addr().(*net.TCPAddr).Port
+	if sp.AKind >= 30 && sp.AKind <= 32 {
+		// sinks on the non-public addresses the name also resolves to, on the same port: whatever
+		// reaches them is a violation
+		sinkIPs := map[int][]string{30: {"::1"}, 31: {"10.99.0.1"}, 32: {"127.0.0.1"}}[sp.AKind]
+		for try := 0; ; try++ {
+			ok := true
+			var sinks []net.Listener
+			for _, ip := range sinkIPs {
+				s, err := net.Listen("tcp", net.JoinHostPort(ip, fmt.Sprint(port)))
+				if err != nil {
+					ok = false
+					break
+				}
+				sinks = append(sinks, s)
+			}
+			if ok {
+				for i, s := range sinks {
+					defer s.Close()
+					go func(s net.Listener, ip string) {
+						c, err := s.Accept()
+						if err == nil {
+							tmuSink.Lock()
+							ob.SinkHit = ip
+							tmuSink.Unlock()
+							c.Close()
+						}
+					}(s, sinkIPs[i])
+				}
+				break
+			}
+			for _, s := range sinks {
+				s.Close()
+			}
+			tl.Close()
+			if try > 20 {
+				ob.Panic = "harness: no common free port for target and sinks"
+				return
+			}
+			if tl, err = net.Listen("tcp", taddr); err != nil {
+				ob.Panic = "harness: target listen: " + err.Error()
+				return
+			}
+			port = tl.Addr().(*net.TCPAddr).Port
+		}
+	}
 	ob.Port = port
 	tout := genBytes(sp.TOut[0], uint32(sp.TOut[1]))
 	var tmu sync.Mutex
@@ -277,7 +376,7 @@ func runTCPConn(auth service.StreamAuthenticateFunc, sp *tcpConnSpec) (ob tcpObs
 	wire, _, key := clientWire(sp, port)
 	firstLen := 0
 	if sp.Kind == "honest" {
-		first := len(addrBytes(sp.AKind, port))
+		first := len(addrBytesSeed(sp.AKind, port, sp.Seed))
 		if sp.Coalesce && len(sp.Chunks) > 0 {
 			first += sp.Chunks[0][0]
 		}
@@ -327,8 +426,26 @@ func runTCPConn(auth service.StreamAuthenticateFunc, sp *tcpConnSpec) (ob tcpObs
 	var raw bytes.Buffer
 	readDone := make(chan error, 1)
 	eofSeen := make(chan struct{})
+	var firstDown int64 = -1 // ms until the first byte from the server reached the client
 	go func() {
-		_, err := io.Copy(&raw, tc)
+		buf := make([]byte, 32768)
+		var err error
+		for {
+			var n int
+			n, err = tc.Read(buf)
+			if n > 0 {
+				if raw.Len() == 0 {
+					atomic.StoreInt64(&firstDown, time.Since(start).Milliseconds())
+				}
+				raw.Write(buf[:n])
+			}
+			if err != nil {
+				if err == io.EOF {
+					err = nil
+				}
+				break
+			}
+		}
 		close(eofSeen)
 		readDone <- err
 	}()
@@ -413,6 +530,7 @@ func runTCPConn(auth service.StreamAuthenticateFunc, sp *tcpConnSpec) (ob tcpObs
 		}
 	}
 	ob.CloseMs = closedAt.Milliseconds()
+	ob.FirstDownMs = atomic.LoadInt64(&firstDown)
 	if rerr != nil && (errors.Is(rerr, syscall.ECONNRESET) || strings.Contains(rerr.Error(), "reset")) {
 		ob.Reset = true
 	}
